@@ -203,7 +203,8 @@ pub fn draw_coord(rng: &mut Rng, lim: f64) -> f64 {
 
 #[derive(Clone, Copy, Debug, Serialize, Deserialize, PartialEq, Eq)]
 pub struct Meta {
-    /// 0 empty, 1 flat strings, 2 nested / unicode, 3 numbers, 4 large
+    /// 0 empty, 1 flat strings, 2 nested / unicode, 3 numbers, 4 large, 5 very large
+    /// (hundreds of KiB, mostly incompressible text)
     pub kind: u8,
     pub seed: u64,
     pub n: u32,
@@ -212,12 +213,13 @@ pub struct Meta {
 impl Meta {
     pub const EMPTY: Meta = Meta { kind: 0, seed: 0, n: 0 };
     pub fn draw(rng: &mut Rng) -> Meta {
-        let kind = match rng.below(10) {
-            0..=2 => 0,
-            3 | 4 => 1,
-            5 | 6 => 2,
-            7 | 8 => 3,
-            _ => 4,
+        let kind = match rng.below(160) {
+            0..=47 => 0,
+            48..=79 => 1,
+            80..=111 => 2,
+            112..=143 => 3,
+            144..=158 => 4,
+            _ => 5,
         };
         Meta { kind, seed: rng.next_u64(), n: 1 + rng.below(8) as u32 }
     }
@@ -241,6 +243,14 @@ impl Meta {
             3 => {
                 for i in 0..self.n {
                     m.insert(format!("n{i}"), rand_number(&mut r, true));
+                }
+            }
+            5 => {
+                let alphabet = b"abcdefghijklmnopqrstuvwxyzABCDEFGHIJKLMNOPQRSTUVWXYZ0123456789-_ ";
+                for i in 0..self.n.min(2) {
+                    let len = 60_000 + r.usize_below(70_000);
+                    let t: String = (0..len).map(|_| alphabet[r.usize_below(alphabet.len())] as char).collect();
+                    m.insert(format!("blob{i}"), Value::String(t));
                 }
             }
             _ => {
@@ -373,6 +383,9 @@ pub enum SizeClass {
     Window,
     /// one run of more than 65 536 consecutive ids sharing one content
     LongRun,
+    /// more than 65 536 regular entries (distinct equal-size contents at consecutive ids): with a
+    /// compressing codec they all fit one root directory
+    ManyRegular,
 }
 
 pub fn draw_size(rng: &mut Rng, huge_pct: u64) -> SizeClass {
@@ -394,6 +407,14 @@ pub fn draw_archive(rng: &mut Rng, size: SizeClass, ic: u8) -> Archive {
     let meta = Meta::draw(rng);
     let mut tiles = Vec::new();
     match size {
+        SizeClass::ManyRegular => {
+            let n = *rng.pick(&[65_536u64, 65_537, 70_000, 100_000]);
+            let base = rng.below(50);
+            let cseed = rng.next_u64() as u32 & 0x00ff_ffff;
+            for i in 0..n {
+                tiles.push(Tile { id: base + i, c: Cont { k: 0, seed: cseed.wrapping_add(i as u32), len: 4 } });
+            }
+        }
         SizeClass::LongRun => {
             let n = *rng.pick(&[65_535u64, 65_536, 65_537, 70_000, 131_073]);
             let base = rng.below(1000);
